@@ -669,6 +669,10 @@ def r13_11(ctx):
     ok = len(w) == 1 and isinstance(w[0].value, ast.Call) and ast.unparse(w[0].value.func) in COPIERS
     ctx.check(ok, "DirectMethod.solver stores a private copy of the options", detail="the caller's dict is stored by reference (and the default {} is shared between calls): a later edit of that dict changes the solver settings of the next transcription",
               expected="self._solver_options = dict(solver_options)", found="; ".join(ast.unparse(x) for x in w), fi=s)
+    # nested option dictionaries ({"ipopt": {"tol": ..}}) are part of the declaration too: the copy has to be deep (D95)
+    deep = len(w) == 1 and any(isinstance(x, ast.Call) and ast.unparse(x.func).split(".")[-1] == "deepcopy" for x in ast.walk(w[0].value))
+    ctx.check(deep, "DirectMethod.solver copies nested option dictionaries too", detail="opts['ipopt']['tol'] edited by the caller after ocp.solver(..) is silently used by the next re-transcription (and ignored until then)",
+              expected="self._solver_options = deepcopy(dict(solver_options))", found="; ".join(ast.unparse(x) for x in w), fi=s)
     # (c) validate before mutating
     for fname, table, test in (("set_next", "_state_next", "self._state_der"), ("set_der", "_state_der", "self._state_next")):
         g = P.own_method("Stage", fname)
